@@ -19,6 +19,17 @@ def _alarm(signum, frame):
     raise UnitTimeout()
 
 
+def _unit_limit(unit, tier):
+    """wall-clock limit of one unit in seconds; stretched (up to 4x) when the machine is busier
+    than its core count, so that foreign load does not turn units inconclusive"""
+    limit = int(unit.opts.get('unit_timeout', 150 if tier == 'quick' else 900))
+    try:
+        load = os.getloadavg()[0] / float(os.cpu_count() or 1)
+    except (OSError, AttributeError):
+        load = 1.0
+    return int(limit * max(1.0, min(4.0, load)))
+
+
 def _worker(args):
     unit, tier, seed = args
     import resource
@@ -26,7 +37,7 @@ def _worker(args):
     import symx
     symx.load_algopy()
     from symx import runner
-    limit = int(unit.opts.get('unit_timeout', 150 if tier == 'quick' else 900))
+    limit = _unit_limit(unit, tier)
     try:
         mem = int(unit.opts.get('unit_mem_gb', 6)) << 30
         resource.setrlimit(resource.RLIMIT_AS, (mem, mem))
@@ -115,7 +126,7 @@ def run_jobs(jobs, njobs, verbose=False):
         p.start()
         child.close()
         unit, tier, seed = job
-        limit = int(unit.opts.get('unit_timeout', 150 if tier == 'quick' else 900))
+        limit = _unit_limit(unit, tier)
         running[p.pid] = (p, parent, job, time.time() + limit + 45, retry)
 
     def failed(job, why, retry):
